@@ -21,7 +21,8 @@ EXTENDS TTBase, Json
 
 CONSTANTS
     Scenarios,      \* set of scenario names enabled in Init
-    Ops,            \* set of operation names enabled in Next
+    OpsAt,          \* sequence (length MaxDepth) of sets of operation names: OpsAt[k] is enabled for the k-th call
+    Lean,           \* TRUE: reduced parameter ranges (one scalar, full transposes only, ...)
     MaxD,           \* maximal order of generated operands
     DimsR, DimsC,   \* sets of row / column mode sizes
     RanksS,         \* set of inner ranks
@@ -42,10 +43,19 @@ Orders == 1..MaxD
 Shapes == UNION {ShapesD(d, DimsR, DimsC, RanksS) : d \in Orders}
 
 \* ------------------------------------------------------------- pool objects
-Obj(dn, rk) == [d |-> dn, rk |-> rk, lo |-> {}, ro |-> {}]
+\* st: "exact"  - d.v is the exact dense value
+\*     "opaque" - the value is not predicted by the model (after an effective truncation, or a
+\*                factor of a decomposition); only dims/metadata are
+\*     "dead"   - consumed by an overwrite=True call whose effect on self is undocumented
+UNK == 999      \* rank bound "unknown" (larger than any rank in the model)
+Obj(dn, rk) == [d |-> dn, rk |-> rk, lo |-> {}, ro |-> {}, st |-> "exact"]
+OpaqueObj(rd, cd, r0, rN, rk) == [d |-> [rd |-> rd, cd |-> cd, r0 |-> r0, rN |-> rN, v |-> <<>>],
+                                  rk |-> rk, lo |-> {}, ro |-> {}, st |-> "opaque"]
+Exact(o) == o.st = "exact"
+Alive(o) == o.st # "dead"
 ObjOfCores(cores) == Obj(FullOf(cores), Ranks(cores))
 Order(o) == Len(o.d.rd)
-Closed(o) == o.d.r0 = 1 /\ o.d.rN = 1
+Closed(o) == o.d.r0 = 1 /\ o.d.rN = 1 /\ Exact(o)
 Ids == 1..Len(pool)
 
 \* an event is a record; "new" lists the objects the call returned (appended to
@@ -62,6 +72,7 @@ Step(ev, newObjs, mods) ==
 
 Depth == Len(SelectSeq(hist, LAMBDA e : e.op # "New"))
 CanStep == Depth < MaxDepth
+Ops == IF Depth < Len(OpsAt) THEN OpsAt[Depth + 1] ELSE {}
 
 \* ------------------------------------------------------------ configurations
 ShardOf(sa, sb, kp, seed) ==
@@ -188,7 +199,7 @@ Elements(a) ==
     /\ Step([op |-> "Elements", a |-> a, res |-> pool[a].d], <<>>, <<>>)
 
 IsOperator(a) ==
-    /\ "IsOperator" \in Ops
+    /\ "IsOperator" \in Ops /\ Alive(pool[a])
     /\ Step([op |-> "IsOperator", a |-> a, res |-> DIsOperator(pool[a].d)], <<>>, <<>>)
 
 Norm2(a) ==
@@ -226,10 +237,10 @@ Sub(a, b) ==
             <<Obj(DSub(pool[a].d, pool[b].d), SumRanks(pool[a], pool[b]))>>, <<>>)
 
 \* scalar multiple; side in {"left","right"}; how: python type used for the scalar
-Scalars == {<<-3, 0>>, <<0, 0>>, <<1, 2>>}
+Scalars == IF Lean THEN {<<-3, 0>>} ELSE {<<-3, 0>>, <<0, 0>>, <<1, 2>>}
 SMul(a, s, side, how) ==
-    /\ "SMul" \in Ops
-    /\ how \in (IF s[2] # 0 THEN {"complex"} ELSE {"int", "float", "complex"})
+    /\ "SMul" \in Ops /\ Exact(pool[a])
+    /\ how \in (IF s[2] # 0 THEN {"complex"} ELSE IF Lean THEN {"float"} ELSE {"int", "float", "complex"})
     /\ Step([op |-> "SMul", a |-> a, s |-> s, side |-> side, how |-> how],
             <<Obj(DScale(s, pool[a].d), pool[a].rk)>>, <<>>)
 
@@ -252,19 +263,20 @@ Transpose(a, S, conj, ow) ==
     \* function of the dense value): the dense contract covers the full conjugate transpose
     \* and partial transposes of real data
     /\ (conj => (S = 1..Order(pool[a]) \/ IsRealD(pool[a].d)))
+    /\ (Lean => S = 1..Order(pool[a]))
     /\ LET r == Obj(DTranspose(pool[a].d, S, conj), pool[a].rk)
            ev == [op |-> "Transpose", a |-> a, cores |-> {k - 1 : k \in S},
                   all |-> (S = 1..Order(pool[a])), conj |-> conj, ow |-> ow]
        IN  IF ow THEN Step(ev, <<>>, <<<<a, r>>>>) ELSE Step(ev, <<r>>, <<>>)
 
 Conj(a, ow) ==
-    /\ "Conj" \in Ops
+    /\ "Conj" \in Ops /\ Exact(pool[a])
     /\ LET r == Obj(DConj(pool[a].d), pool[a].rk)
            ev == [op |-> "Conj", a |-> a, ow |-> ow]
        IN  IF ow THEN Step(ev, <<>>, <<<<a, r>>>>) ELSE Step(ev, <<r>>, <<>>)
 
 Copy(a) ==
-    /\ "Copy" \in Ops
+    /\ "Copy" \in Ops /\ Exact(pool[a])
     /\ Step([op |-> "Copy", a |-> a], <<Obj(pool[a].d, pool[a].rk)>>, <<>>)
 
 \* ------------------------------------------------------------- constructors
@@ -296,6 +308,7 @@ Uniform(dims, r, nrm) ==
 Tensordot(a, b, k, mode, ow) ==
     /\ "Tensordot" \in Ops /\ Closed(pool[a]) /\ Closed(pool[b])
     /\ k >= 1 /\ k <= Order(pool[a]) /\ k <= Order(pool[b])
+    /\ (Lean => a < b)
     /\ LET S == pool[a].d
            O == pool[b].d
            p == Len(S.rd)
@@ -304,14 +317,14 @@ Tensordot(a, b, k, mode, ow) ==
            oC == IF TDFirstO(mode) THEN Range(1, k) ELSE Range(q - k + 1, q)
        IN  /\ Pick(S.rd, sC) = Pick(O.rd, oC) /\ Pick(S.cd, sC) = Pick(O.cd, oC)
            /\ LET dn == DTensordot(S, O, k, mode)
-                  r == Obj(dn, [t \in 1..(Len(dn.rd) + 1) |-> IF t = 1 \/ t = Len(dn.rd) + 1 THEN 1 ELSE 0])
+                  r == Obj(dn, [t \in 1..(Len(dn.rd) + 1) |-> IF t = 1 \/ t = Len(dn.rd) + 1 THEN 1 ELSE UNK])
                   ev == [op |-> "Tensordot", a |-> a, b |-> b, k |-> k, mode |-> mode, ow |-> ow]
               IN  IF ow THEN a # b /\ Step(ev, <<>>, <<<<a, r>>>>) ELSE Step(ev, <<r>>, <<>>)
 
 \* contraction of a boundary rank with an integer matrix
 MatFill(seed, m, n) == [i \in 1..m |-> [j \in 1..n |-> <<(Hash(seed, 1, i, j, i + j, 2) - 3), 0>>]]
 RankTensordot(a, n, mode, seed, ow) ==
-    /\ "RankTensordot" \in Ops
+    /\ "RankTensordot" \in Ops /\ Exact(pool[a])
     /\ LET x == pool[a].d
            M == IF mode = "last" THEN MatFill(seed, x.rN, n) ELSE MatFill(seed, n, x.r0)
            R == Prod(x.rd) * Prod(x.cd)
@@ -335,7 +348,7 @@ DConcatG(x, y) ==
                 CMul(AtG(x, p, SubSeq(I, 1, dx), SubSeq(J, 1, dx), t - 1),
                      AtG(y, t - 1, SubSeq(I, dx + 1, dx + dy), SubSeq(J, dx + 1, dx + dy), q))], x.rN))
 Concatenate(a, b, form, ow) ==
-    /\ "Concatenate" \in Ops
+    /\ "Concatenate" \in Ops /\ Exact(pool[a]) /\ Exact(pool[b])
     /\ pool[a].d.rN = pool[b].d.r0
     /\ Order(pool[a]) + Order(pool[b]) <= 2 * MaxD
     /\ LET r == Obj(DConcatG(pool[a].d, pool[b].d), pool[a].rk \o Tail(pool[b].rk))
@@ -351,6 +364,7 @@ RankTranspose(a, ow) ==
 Diag(a, S) ==
     /\ "Diag" \in Ops /\ Closed(pool[a])
     /\ S # {} /\ \A k \in S : pool[a].d.cd[k] = 1
+    /\ (Lean => S = {k \in 1..Order(pool[a]) : pool[a].d.cd[k] = 1})
     /\ Step([op |-> "Diag", a |-> a, list |-> {k - 1 : k \in S}],
             <<Obj(DDiag(pool[a].d, S), pool[a].rk)>>, <<>>)
 
@@ -360,7 +374,7 @@ Squeeze(a) ==
     /\ \E k \in 1..Order(pool[a]) : pool[a].d.rd[k] = 1 /\ pool[a].d.cd[k] = 1
     /\ LET dn == DSqueeze(pool[a].d)
        IN  Step([op |-> "Squeeze", a |-> a],
-                <<Obj(dn, [t \in 1..(Len(dn.rd) + 1) |-> IF t = 1 \/ t = Len(dn.rd) + 1 THEN 1 ELSE 0])>>, <<>>)
+                <<Obj(dn, [t \in 1..(Len(dn.rd) + 1) |-> IF t = 1 \/ t = Len(dn.rd) + 1 THEN 1 ELSE UNK])>>, <<>>)
 
 
 \* TT <-> QTT: split every mode i into the factors rds[i] / cds[i] (C order), merge back
@@ -370,7 +384,7 @@ TT2QTT(a, rds, cds) ==
     /\ "TT2QTT" \in Ops /\ Closed(pool[a])
     /\ LET dn == DSplit(pool[a].d, rds, cds)
        IN  Step([op |-> "TT2QTT", a |-> a, rds |-> rds, cds |-> cds],
-                <<Obj(dn, [t \in 1..(Len(dn.rd) + 1) |-> IF t = 1 \/ t = Len(dn.rd) + 1 THEN 1 ELSE 0])>>, <<>>)
+                <<Obj(dn, [t \in 1..(Len(dn.rd) + 1) |-> IF t = 1 \/ t = Len(dn.rd) + 1 THEN 1 ELSE UNK])>>, <<>>)
 
 \* all compositions of n into positive parts
 RECURSIVE Compositions(_)
@@ -380,7 +394,7 @@ QTT2TT(a, nums) ==
     /\ ISum(nums) = Order(pool[a])
     /\ LET dn == DMerge(pool[a].d, nums)
        IN  Step([op |-> "QTT2TT", a |-> a, nums |-> nums],
-                <<Obj(dn, [t \in 1..(Len(dn.rd) + 1) |-> IF t = 1 \/ t = Len(dn.rd) + 1 THEN 1 ELSE 0])>>, <<>>)
+                <<Obj(dn, [t \in 1..(Len(dn.rd) + 1) |-> IF t = 1 \/ t = Len(dn.rd) + 1 THEN 1 ELSE UNK])>>, <<>>)
 
 \* block-core assembly from an r1 x r2 list of m x n matrices (or the placeholder 0)
 \* present: set of <<p, q>> positions holding a matrix; cplx: blocks are complex
@@ -412,6 +426,7 @@ RkRight(rk, dn, s, e) ==
     IF s < e THEN rk
     ELSE RkRight([rk EXCEPT ![s + 1] = Min(rk[s + 1], dn.rd[s + 1] * dn.cd[s + 1] * rk[s + 2])], dn, s - 1, e)
 
+ClosedB(o) == o.d.r0 = 1 /\ o.d.rN = 1 /\ Alive(o)
 GaugeLeft(o, s, e) ==
     IF s > e THEN o
     ELSE [o EXCEPT !.lo = (o.lo \ {e + 1}) \cup (s..e),
@@ -425,24 +440,75 @@ GaugeRight(o, s, e) ==
 
 \* in-place; s, e are 0-based core indices as in the API; dflt: call without indices
 OrthoLeft(a, s, e, dflt) ==
-    /\ "OrthoLeft" \in Ops /\ Closed(pool[a])
+    /\ "OrthoLeft" \in Ops /\ ClosedB(pool[a])
     /\ 0 <= s /\ s <= e /\ e <= Order(pool[a]) - 2
     /\ (dflt => s = 0 /\ e = Order(pool[a]) - 2)
     /\ Step([op |-> "OrthoLeft", a |-> a, s |-> s, e |-> e, dflt |-> dflt,
              touched |-> s..(e + 1)], <<>>, <<<<a, GaugeLeft(pool[a], s, e)>>>>)
 
 OrthoRight(a, s, e, dflt) ==
-    /\ "OrthoRight" \in Ops /\ Closed(pool[a])
+    /\ "OrthoRight" \in Ops /\ ClosedB(pool[a])
     /\ 1 <= e /\ e <= s /\ s <= Order(pool[a]) - 1
     /\ (dflt => e = 1 /\ s = Order(pool[a]) - 1)
     /\ Step([op |-> "OrthoRight", a |-> a, s |-> s, e |-> e, dflt |-> dflt,
              touched |-> (e - 1)..s], <<>>, <<<<a, GaugeRight(pool[a], s, e)>>>>)
 
 Ortho(a) ==
-    /\ "Ortho" \in Ops /\ Closed(pool[a])
+    /\ "Ortho" \in Ops /\ ClosedB(pool[a])
     /\ LET d == Order(pool[a])
        IN  Step([op |-> "Ortho", a |-> a, touched |-> 0..(d - 1)], <<>>,
                 <<<<a, GaugeRight(GaugeLeft(pool[a], 0, d - 2), d - 1, 1)>>>>)
+
+
+\* truncating orthonormalisation (in place).  If the cap r is at least every rank bound the sweep can
+\* produce, nothing is cut and the value is preserved exactly; otherwise the model does not predict the
+\* value (opaque) but still the dims, the rank cap and the isometry flags.
+CapRk(rk, r, lo, hi) == [t \in 1..Len(rk) |-> IF t >= lo /\ t <= hi THEN Min(rk[t], r) ELSE rk[t]]
+Cuts(rk, r, lo, hi) == \E t \in lo..hi : rk[t] > r
+OrthoTrunc(a, which, r) ==
+    /\ "OrthoTrunc" \in Ops /\ ClosedB(pool[a]) /\ Order(pool[a]) >= 2
+    /\ LET o == pool[a]
+           d == Order(o)
+           g == CASE which = "left" -> GaugeLeft(o, 0, d - 2)
+                  [] which = "right" -> GaugeRight(o, d - 1, 1)
+                  [] OTHER -> GaugeRight(GaugeLeft(o, 0, d - 2), d - 1, 1)
+           cut == Cuts(g.rk, r, 2, d)
+           g2 == [g EXCEPT !.rk = CapRk(g.rk, r, 2, d),
+                           !.st = IF cut /\ o.st = "exact" THEN "opaque" ELSE o.st,
+                           !.d.v = IF cut THEN <<>> ELSE o.d.v]
+       IN  Step([op |-> "OrthoTrunc", a |-> a, which |-> which, maxrank |-> r, cut |-> cut,
+                 touched |-> 0..(d - 1)], <<>>, <<<<a, g2>>>>)
+
+\* global SVD of a vector-type train at a split index: u (open right rank), s, v (open left rank).
+\* The factors are opaque objects; the event carries the dense value so that the replay can check
+\* u diag(s) v = value, the isometries and the singular values (C05).
+Svd(a, index, ow) ==
+    /\ "Svd" \in Ops /\ Closed(pool[a]) /\ IsVec(pool[a])
+    /\ Order(pool[a]) >= 2 /\ index >= 1 /\ index <= Order(pool[a]) - 1
+    /\ LET o == pool[a]
+           d == Order(o)
+           g == GaugeRight(GaugeLeft(o, 0, index - 2), d - 1, index)
+           r == Min(g.rk[index] * o.d.rd[index], g.rk[index + 1])
+           u == [OpaqueObj(SubSeq(o.d.rd, 1, index), SubSeq(o.d.cd, 1, index), 1, r,
+                           SubSeq(g.rk, 1, index) \o <<r>>) EXCEPT !.lo = 0..(index - 1)]
+           v == [OpaqueObj(SubSeq(o.d.rd, index + 1, d), SubSeq(o.d.cd, index + 1, d), r, 1,
+                           <<r>> \o SubSeq(g.rk, index + 2, d + 1)) EXCEPT !.ro = 0..(d - index - 1)]
+           ev == [op |-> "Svd", a |-> a, index |-> index, ow |-> ow, val |-> o.d, rmax |-> r]
+       IN  IF ow THEN Step(ev, <<u, v>>, <<<<a, [o EXCEPT !.st = "dead", !.d.v = <<>>]>>>>)
+                 ELSE Step(ev, <<u, v>>, <<>>)
+
+\* pseudoinverse at a split index (value checked by the replay against the Moore-Penrose
+\* pseudoinverse of the unfolding: C05); here: a fresh object of the same dims, operand unchanged
+Pinv(a, index, ow) ==
+    /\ "Pinv" \in Ops /\ Closed(pool[a]) /\ IsVec(pool[a])
+    /\ \E n \in 1..Len(pool[a].d.v) : pool[a].d.v[n] # CZ      \* not the zero tensor (s/s[0] undefined)
+    /\ Order(pool[a]) >= 2 /\ index >= 1 /\ index <= Order(pool[a]) - 1
+    /\ LET o == pool[a]
+           p == OpaqueObj(o.d.rd, o.d.cd, 1, 1, [t \in 1..Len(o.rk) |-> IF t = 1 \/ t = Len(o.rk) THEN 1 ELSE UNK])
+           \* relative cut-off 10^-12: drops exactly the zero singular values of an integer unfolding
+           ev == [op |-> "Pinv", a |-> a, index |-> index, ow |-> ow, val |-> o.d, threxp |-> 12]
+       IN  IF ow THEN Step(ev, <<p>>, <<<<a, [o EXCEPT !.st = "dead", !.d.v = <<>>]>>>>)
+                 ELSE Step(ev, <<p>>, <<>>)
 
 \* ----------------------------------------------------------------- Next
 BOOL2 == {FALSE, TRUE}
@@ -457,13 +523,15 @@ Next ==
                                 SMul(a, s, side, how)
                          \/ \E S \in SUBSET (1..Order(pool[a])) : Diag(a, S)
                          \/ Squeeze(a)
-                         \/ \E n \in 1..2, mode \in {"first", "last"}, ow \in OWs :
+                         \/ \E n \in (IF Lean THEN {2} ELSE 1..2), mode \in {"first", "last"}, ow \in OWs :
                                 RankTensordot(a, n, mode, Len(hist), ow)
                          \/ \E s \in 0..(MaxD - 2), e \in 0..(MaxD - 2) :
                                 OrthoLeft(a, s, e, FALSE) \/ OrthoLeft(a, s, e, TRUE)
                          \/ \E s \in 1..(MaxD - 1), e \in 1..(MaxD - 1) :
                                 OrthoRight(a, s, e, FALSE) \/ OrthoRight(a, s, e, TRUE)
                          \/ Ortho(a)
+                         \/ \E which \in {"left", "right", "both"}, r \in (IF Lean THEN {1} ELSE 1..2) : OrthoTrunc(a, which, r)
+                         \/ \E index \in 1..(MaxD - 1), ow \in OWs : Svd(a, index, ow) \/ Pinv(a, index, ow)
                          \/ \E f \in {g \in [1..Order(pool[a]) ->
                                             UNION {ModeFacts(pool[a].d.rd[k], pool[a].d.cd[k]) : k \in 1..Order(pool[a])}] :
                                         \A k \in 1..Order(pool[a]) : g[k] \in ModeFacts(pool[a].d.rd[k], pool[a].d.cd[k])} :
@@ -496,7 +564,7 @@ ValueSemantics ==
 Consistent ==
     \A i \in Ids : /\ Len(pool[i].d.rd) = Len(pool[i].d.cd)
                    /\ Len(pool[i].rk) = Len(pool[i].d.rd) + 1
-                   /\ Len(pool[i].d.v) = Size(pool[i].d)
+                   /\ (Exact(pool[i]) => Len(pool[i].d.v) = Size(pool[i].d))
                    /\ pool[i].lo \subseteq 0..(Order(pool[i]) - 1)
                    /\ pool[i].ro \subseteq 0..(Order(pool[i]) - 1)
 
